@@ -80,7 +80,7 @@ def rdigits(rng, n, first_nonzero=True):
     return s
 
 
-def perturb_cell(rng, text, kind, blank_before):
+def perturb_cell(rng, text, kind, blank_before, always_grow=False):
     """Returns (new text, grow) with len(new) == len(text) + grow, grow in (0, 1): grow == 1
     means the new text also overwrites the blank in front of the old one.  None: this kind does
     not apply to this cell."""
@@ -100,7 +100,7 @@ def perturb_cell(rng, text, kind, blank_before):
         if kind == 'negative':
             if sign:
                 return '-' + nlead + '.' + nfrac + letter + nexp, 0
-            if blank_before and rng.random() < 0.7:
+            if blank_before and (always_grow or rng.random() < 0.7):
                 return '-' + nlead + '.' + nfrac + letter + nexp, 1
             if lead == '0':
                 return '-.' + nfrac + letter + nexp, 0
@@ -177,7 +177,7 @@ def make_variant(ctx, rng, lines, ref, kind, fraction):
                         # something a Fortran Ew.d column prints (it drops the letter instead): not generated
                         ctx.count('exp3_letter_not_generated_touching')
                         continue
-                    out = perturb_cell(rng, text, k, blank_before)
+                    out = perturb_cell(rng, text, k, blank_before, always_grow=(fraction >= 1.0))
                     if out is None:
                         continue
                     new, grow = out
